@@ -89,6 +89,53 @@ type Term struct {
 	Name string // variable name
 	ID   int
 	emit int // solver epoch in which this term was defined/declared
+	vars []*Term
+	varsDone bool
+}
+
+// Vars returns the variables occurring in t (cached; nil result with
+// tooMany=true if there are more than 6).
+func (t *Term) Vars() ([]*Term, bool) {
+	if t.varsDone {
+		return t.vars, t.vars == nil && t.Op != OpConst
+	}
+	t.varsDone = true
+	switch t.Op {
+	case OpConst:
+		t.vars = []*Term{}
+		return t.vars, false
+	case OpVar:
+		t.vars = []*Term{t}
+		return t.vars, false
+	}
+	var out []*Term
+	for _, a := range t.Args {
+		vs, many := a.Vars()
+		if many {
+			t.vars = nil
+			return nil, true
+		}
+		for _, v := range vs {
+			dup := false
+			for _, o := range out {
+				if o == v {
+					dup = true
+				}
+			}
+			if !dup {
+				out = append(out, v)
+			}
+		}
+		if len(out) > 6 {
+			t.vars = nil
+			return nil, true
+		}
+	}
+	if out == nil {
+		out = []*Term{}
+	}
+	t.vars = out
+	return out, false
 }
 
 type TermCtx struct {
